@@ -107,6 +107,7 @@ Proof.
     rewrite like_escaped_prefix_cs. reflexivity.
   - rewrite substr_selects_prefix. reflexivity.
   - rewrite gen_range_upper. rewrite range_prefix_gen. reflexivity.
+  - reflexivity.
 Qed.
 
 Lemma all_sites_known : forallb (fun si => known_idiom (snd si)) sites = true.
